@@ -14,27 +14,27 @@ CRYPTO_TRUST = [
 
 PROPS = {
     "C03": {
-        "lean": ["PnaVerif.Props.Consts", "PnaVerif.Props.C03"],
+        "lean": ["PnaVerif.Props.Consts", "PnaVerif.Props.C03", "PnaVerif.Props.C03Recut"],
         "families": ["chunk", "parse", "cipher-sm", "roundtrip", "split", "truncate", "foreign"],
         "trusted": COMMON_TRUST,
         "text": "slice reader = stream reader proved for all byte strings; correspondence on valid/mutated/hostile inputs",
     },
     "C05": {
-        "lean": ["PnaVerif.Props.Consts", "PnaVerif.Props.C05"],
+        "lean": ["PnaVerif.Props.Consts", "PnaVerif.Props.C05", "PnaVerif.Props.C05Archive"],
         "families": ["alter", "chunk"],
         "trusted": COMMON_TRUST,
         "text": "CRC-32 single-byte-change detection proved for all inputs; alteration sweep on real archives",
     },
     "C06": {
         "lean": ["PnaVerif.Props.Consts", "PnaVerif.Props.C06", "PnaVerif.Props.C06Archive"],
-        "families": ["truncate", "cli-truncate"],
+        "families": ["truncate", "cli-truncate", "concat"],
         "cli": True,
         "trusted": COMMON_TRUST,
         "text": "every proper prefix of a chunk is eof (proved); exhaustive cut positions on real archives",
     },
     "C13": {
         "lean": ["PnaVerif.Props.Consts", "PnaVerif.Props.C13", "PnaVerif.Props.C13Entry"],
-        "families": ["chunk", "parse", "entry", "edit"],
+        "families": ["chunk", "parse", "entry", "edit", "concat"],
         "cli": True,
         "trusted": COMMON_TRUST,
         "text": "chunk encode/decode exact inverses (proved); raw items compared chunk for chunk",
@@ -90,7 +90,8 @@ PROPS = {
     },
     "C04": {
         "lean": ["PnaVerif.Props.Consts", "PnaVerif.Props.C04"],
-        "families": ["split"],
+        "families": ["split", "concat"],
+        "cli": True,
         "trusted": COMMON_TRUST,
         "text": "size limit, losslessness, termination/rejection proved for all archives and all maxima; split family: every max around the overhead on real archives, parts re-read",
     },
@@ -117,9 +118,9 @@ PROPS = {
     },
     "C14": {
         "lean": ["PnaVerif.Props.Consts", "PnaVerif.Props.C14"],
-        "families": ["roundtrip", "split", "edit", "history"],
+        "families": ["roundtrip", "split", "edit", "history", "concat"],
         "cli": True,
-        "ops": {"roundtrip": ["archive.read.stream"], "split": ["split.archive", "multipart.read"], "edit": [], "history": []},
+        "ops": {"roundtrip": ["archive.read.stream"], "split": ["split.archive", "multipart.read"], "edit": [], "history": [], "concat": ["concat"]},
         "trusted": COMMON_TRUST + CRYPTO_TRUST + ["harness/src/refdec.rs — the independent reader (primitive crates only) is itself unverified test code"],
         "text": "writer output tokenises into the expected chunk sequence and the strict decoder returns the entries written (proved); every archive/part file produced by the C01/C04/C10/C11 families is decoded by an independent primitive-crate reader",
     },
